@@ -30,7 +30,7 @@ PROP = dict(
     )
 
 MANIFEST = dict(
-    level_text="Ring-refinement invariant of the price window proved for every window size n>=1 and every finite history of samples / discard resets / validation failures (no panic, activation only on a full window, published value = integer mean of the last n samples), and lifted to the whole pipeline block after block (Model/BandOracle.v: bandoracle.BeginBlocker with its request-id check and outage bookkeeping, then market.BeginBlocker; acknowledgements, results, fetch-price registration, asset registration): no block of any history panics, an active price is always the integer mean of N positive samples delivered after the last wipe, a registration leaves no Twa record, and the discard flag is raised exactly when the outage measured from the first silent check to the first answered check is >= AcceptedHeightDiff, in which case every stored window is reset before a sample is used. Three defects found earlier were repaired by fix: commits (window size 1 panic, uint64 wrap of the sum, window size >= 2^63); one known finding remains (C17-F4: an already consumed oracle result is re-delivered after a check-flag reset; class kf_C17_4, freshness proved outside it). The models are tied to /repo by differential runs of UpdatePriceList, market.BeginBlocker and the whole block pipeline on every check, and by regenerated definitions (tie C) of CalculateTwa, UpdatePriceList, GetLatestPrice and the request-id validation.",
+    level_text="Ring-refinement invariant of the price window proved for every window size n>=1 and every finite history of samples / discard resets / validation failures (no panic, activation only on a full window, published value = integer mean of the last n samples), and lifted to the whole pipeline block after block (Model/BandOracle.v: bandoracle.BeginBlocker with its request-id check and outage bookkeeping, then market.BeginBlocker; acknowledgements, results, fetch-price registration, asset registration): no block of any history panics, an active price is always the integer mean of N positive samples delivered after the last wipe, a registration leaves no Twa record, and the discard flag is raised exactly when the outage measured from the first silent check to the first answered check is >= AcceptedHeightDiff, in which case every stored window is reset before a sample is used. Freshness of what is delivered is proved for every history: the result of one oracle request reaches the windows at most once, the delivered request ids are distinct acknowledged ids (c17_pipe_fresh, c17_pipe_delivered_once, c17_pipe_active_fresh). Four defects found earlier were repaired by fix: commits (window size 1 panic, uint64 wrap of the sum, window size >= 2^63, and C17-F4: an already consumed oracle result was re-delivered after a check-flag reset; its witness histories are regression cases now). The models are tied to /repo by differential runs of UpdatePriceList, market.BeginBlocker and the whole block pipeline on every check, and by regenerated definitions (tie C) of CalculateTwa, UpdatePriceList, GetLatestPrice and the request-id validation.",
     design_ref="DESIGN.md section 4 C17, 10.2",
     level_note="Trusted: Coq kernel, extraction (ExtrOcamlBasic), OCaml runner, Go harness; IBC transport modelled by injecting acknowledgement / result packets into the real callbacks. No axioms (Closed under the global context).",
     technique="Coq proof (ring-refinement invariant by induction over histories; pipeline invariant by induction over block histories) + model/implementation correspondence run + regenerated definitions (tie C)",
